@@ -50,10 +50,18 @@ Digest algebra_program(uint64_t seed, int nops) {
       case 4: pool[t] = pool[a].Rotate(0, d - 1, r.normal(), r.normal()); break;
       case 5: { SU_vector x(pool[a]); x.RotateToB1(k); pool[t] = std::move(x); } break;
       case 6: { auto es = pool[a].GetEigenSystem(); for (unsigned i = 0; i < d; i++) dg.exact.push_back(gsl_vector_get(es.first.get(), i)); } break;
-      case 7: { SU_vector u = pool[a].UTransform(pool[b] * 0.3, gsl_complex_rect(0, r.uni(-2, 2))); put(dg.approx, u); } break;  // randomised norm estimator: compared within tolerance
+      case 7: {
+        // matrix exponential with the norm steered through every Pade branch (3,5,7,9,13 and several squarings),
+        // so that each thread touches every piece of thread-local scratch of the exponential
+        static const double targets[] = {0.004, 0.08, 0.5, 1.4, 1.9, 3.5, 9.0, 40.0};
+        double m = 0; for (unsigned i = 0; i < pool[b].Size(); i++) m = std::max(m, std::fabs(pool[b][i]));
+        double sc = m > 0 ? targets[r.pick(8)] / (m * d) : 1.0;
+        SU_vector u = pool[a].UTransform(pool[b], gsl_complex_rect(0, sc * r.sign()));
+        put(dg.approx, u);  // randomised norm estimator: compared within tolerance
+      } break;
       case 8: dg.exact.push_back(pool[a] * pool[b]); break;
       case 9: { unsigned nd = 2 + r.pick(5); SU_vector n(rand_vec(r, nd)); SU_vector m = n - n * 0.5; put(dg.exact, m); } break;  // other dimensions: more cache traffic
-      case 10: { auto U = k.GetTransformationMatrix(d); pool[t] = pool[a].UTransform(U.get()); } break;
+      case 10: { auto U = k.GetTransformationMatrix(d); pool[t] = r.coin() ? pool[a].UTransform(U.get()) : (r.coin() ? pool[a].UDaggerTransform(U.get()) : pool[a].Rotate(U.get())); } break;
       case 11: pool[t] = std::move(pool[a]) - pool[b]; pool[a] = SU_vector(rand_vec(r, d)); break;
       case 12: { size_t n = pool[a].GetEvolveBufferSize(); std::unique_ptr<double[]> buf(new double[n]); SU_vector h(d); for (unsigned l = 1; l < d; l++) h[d * l + l] = r.normal(); h.PrepareEvolve(buf.get(), r.normal()); pool[t] = pool[b].Evolve(buf.get()); } break;
       default: pool[t] *= 0.5; pool[t] += pool[a].Real() - pool[b].Imag();
@@ -61,6 +69,7 @@ Digest algebra_program(uint64_t seed, int nops) {
     // keep magnitudes bounded
     double m = 0; for (unsigned i = 0; i < pool[t].Size(); i++) m = std::max(m, std::fabs(pool[t][i]));
     if (m > 1e3) pool[t] /= m;
+    if (m < 1e-3) pool[t] = SU_vector(rand_vec(r, d));   // ... and away from underflow
   }
   for (auto& v : pool) put(dg.exact, v);
   return dg;
@@ -117,7 +126,7 @@ int main(int argc, char** argv) {
   vh::Args args = vh::parse_args(argc, argv);
   vh::Ctx c(args);
   if (args.prop != "C18") { fprintf(stderr, "h_threads serves C18 only\n"); return 2; }
-  long rounds = c.n(12, 120);
+  long rounds = c.n(48, 600);
   int nops = c.thorough() ? 400 : 200, nq = c.thorough() ? 400 : 200;
   // main-thread warm-up: per-thread scratch objects of the main thread exist before any baseline
   { Shared w1(3, 2, 1, 1); SU_vector o(2); std::vector<bool> av(1); (void)w1.GetExpectationValueD(o, 0, 1.0); (void)w1.GetExpectationValueD(o, 0, 1.0, 1.0, av); (void)algebra_program(1, 30); }
